@@ -50,7 +50,9 @@ def begin_structure(ck, agg, nn):
         agg.add("R04.1", f, "address mask covers exactly the node's own octal digits", const_of(norm(c.get("_mask"))) == want_mask, "level %d: mask %r, expected %s" % (d, c.get("_mask"), oct(want_mask)))
         agg.add("R04.1", f, "inverted mask is the 16-bit complement", const_of(norm(c.get("_mask_inv"))) == (0xFFFF << (3 * d)) & 0xFFFF, "level %d: inverted mask %r" % (d, c.get("_mask_inv")))
         # own address: bits above the digits are zero, the digits are the input
-        ok = all(bit_src(c.get("_addr"), i) == (("n_addr", i) if i < 3 * d else 0) for i in range(NBITS))
+        # (bits above the node's digits are zero on this path: the stored copy may or may not carry that refinement, depending on which
+        # variable the digit-counting loop tested)
+        ok = all(bit_src(c.get("_addr"), i) == ("n_addr", i) if i < 3 * d else bit_src(c.get("_addr"), i) in (0, ("n_addr", i)) for i in range(NBITS))
         agg.add("R04.1", f, "the stored address is the given one", ok, "level %d: %r" % (d, c.get("_addr")))
         # parent = address without its most significant digit; parent pipe = that digit
         okp = all(bit_src(c.get("_parent"), i) == (("n_addr", i) if i < 3 * (d - 1) else 0) for i in range(NBITS)) if d else const_of(norm(c.get("_parent"))) == 0
@@ -227,6 +229,44 @@ def pipes_differ_in_byte0(ck, agg, nn):
     return n
 
 
+def reconfigure(ck, agg):
+    """R04.8: assigning node_address re-runs _begin() for *every* valid value - also the current one (docs/topology: after changing
+    address_prefix / address_suffix / allow_multicast the address must be re-assigned so that the six pipes are re-opened on the new
+    bytes) - and does nothing for an invalid one"""
+    P = ck.prog
+    n = 0
+    for modname, clsname in (("rf24_network", "RF24NetworkRoutingOnly"), ("rf24_network", "RF24Network")):
+        nn = net.NetNode(ck, modname, clsname)
+        mix = P.cls("network.mixins", "NetworkMixin")
+        f_begin = P.method(mix, "_begin")
+
+        def rec_begin(model, it, st, fr, node, target, args, kwargs):
+            it.event(st, fr, "begin-call", node, tuple(args[1:]))
+            return [(st, Const(None))]
+        nn.model.opaque[f_begin.qualname] = rec_begin
+        f = P.method(nn.cls, "node_address", "set")
+        for which in ("another address", "the address the node already has"):
+            n += 1
+            st, node = nn.fresh()
+            cur = st.heap[node.ident].fields["_addr"]
+            val = cur if which.startswith("the address") else Sym("val", "int", rng=(0, 0xFFFF))
+            outs = nn.run(f, node, [val], st)
+            for out in outs:
+                if out.kind != "return":
+                    agg.add("R04.8", f, "assigning node_address does not raise", False, "%s: raises %s" % (which, out.value.exc))
+                    continue
+                calls = [e for e in out.trace if e.kind == "begin-call"]
+                valid = [e for e in out.trace if e.kind == "cond" and not isinstance(e.data[1], tuple) and isinstance(norm(e.data[1]), Sym) and isinstance(norm(e.data[1]).name, tuple) and norm(e.data[1]).name[0] == "valid"]
+                is_valid = bool(valid) and all(e.data[0] is True for e in valid)
+                if is_valid:
+                    agg.add("R04.8", f, "a valid node_address (also the current one) re-opens the pipes through _begin()", len(calls) == 1 and calls[0].data and norm(calls[0].data[0]).key() == norm(val).key(),
+                            "node_address = %s: %d _begin() call(s) %r - the pipes keep addresses derived from the old prefix/suffix/multicast settings" % (which, len(calls), [c.data for c in calls]))
+                else:
+                    agg.add("R04.8", f, "an invalid node_address changes nothing", not calls, "node_address = invalid value: _begin() called")
+            agg.add("R04.8", f, "the setter has an accepting path", any(o.kind == "return" and [e for e in o.trace if e.kind == "begin-call"] for o in outs), "node_address = %s never reaches _begin()" % which)
+    return n
+
+
 def run(ck):
     ck.explanation = (
         "Static analysis of the routing arithmetic with a symbolic 12-bit address whose bits carry provenance. R04.1/R04.6: _begin is interpreted "
@@ -236,7 +276,9 @@ def run(ck):
         "own digit count x send type: physical/multicast -> given address, pipe 0; descendants -> pipe 5 via the destination cut after one more "
         "digit; otherwise the parent on the parent pipe; every comparison is bit-aligned. R04.2: each address programmed into the radio by the "
         "network modules is a _pipe_address() result (one translator for RX and TX). R04.3: default suffix/prefix bytes distinct. R04.7: the pipes "
-        "of one node share bytes 1-4 and have pairwise distinct first bytes (with R14.4: byte k depends on digit k-1 only).")
+        "of one node share bytes 1-4 and have pairwise distinct first bytes (with R14.4: byte k depends on digit k-1 only). R04.8: assigning "
+        "node_address calls _begin() for every valid value, the current one included (that is how new prefix/suffix bytes reach the pipes). "
+        "R14.1 (re-run here): multicast() addresses exactly the requested level, 0 and 4 included.")
     ck.not_decided = ["that hop-by-hop forwarding reaches every destination in at most 8 hops along the tree path for all 781x780 pairs, and that no two of the "
                       "781x6 physical addresses collide: arithmetic facts over runtime values that need evaluation or proof, not shape"]
     agg = Agg(ck)
@@ -248,7 +290,12 @@ def run(ck):
     n3 = translators(ck, agg)
     n4 = tables(ck, agg, nn)
     n5 = pipes_differ_in_byte0(ck, agg, nn)
+    n6 = reconfigure(ck, agg)
+    # "a multicast addressed to a level is transmitted to exactly that level's address": the level argument's domain (C14's R14.1)
+    from . import c14
+    n7 = c14.level_domain(ck, agg, net.NetNode(ck, "rf24_network", "RF24Network"))
     agg.flush()
+    ck.floor("R04.8", "node_address re-assignment scenarios", n6, 4)
     ck.floor("R04.1", "_begin paths", n1, 5)
     ck.floor("R04.5", "next-hop scenarios", n2, 25)
     ck.floor("R04.2", "pipe-address programming sites", n3, 3)
